@@ -143,6 +143,30 @@ def derivative_check(t, case, setting, labels):
         i = int(np.argmin(np.isfinite(j_all) & (j_all > 0)))
         raise Violation(f"jacobian not positive/finite at x={x[i]!r}: "
                         f"{j_all[i]!r} params={t.params.values}")
+    # the same points as a 2-D array (a row, a column, two rows mixing the
+    # branches): element by element the same Jacobian and forward values
+    if cls not in ("Softmax",) and len(x) >= 1:
+        shapes = [(1, len(x)), (len(x), 1)]
+        if len(x) % 2 == 0 and len(x) >= 4:
+            shapes.append((2, len(x) // 2))
+        f_all = np.asarray(t.forward(x.copy()), dtype=np.float64)
+        for shp in shapes:
+            x2 = x.reshape(shp).copy()
+            j2 = np.asarray(t.jacobian(x2), dtype=np.float64)
+            f2 = np.asarray(t.forward(x2), dtype=np.float64)
+            if j2.shape != shp or not np.allclose(j2.ravel(), j_all,
+                                                  rtol=1e-12, atol=0,
+                                                  equal_nan=True):
+                raise Violation(
+                    f"jacobian of the points given as an array of shape "
+                    f"{shp} differs from the 1-D call: {j2.ravel()[:4]} vs "
+                    f"{j_all[:4]} at {x[:4]} params={t.params.values}")
+            if f2.shape != shp or not np.allclose(f2.ravel(), f_all,
+                                                  rtol=1e-12, atol=0,
+                                                  equal_nan=True):
+                raise Violation(f"forward of the points given as an array "
+                                f"of shape {shp} differs from the 1-D call")
+        labels.append("2-D-input")
     # uncommon but legitimate ways of passing the points: a list of floats,
     # and whole numbers given as Python ints (when they are in the domain)
     if cls not in ("Softmax",):
